@@ -20,6 +20,9 @@ pub fn string_literals_from_ident<'a>(
   ident: &Identifier,
 ) -> Vec<&'a Type2<'a>> {
   let mut literals = Vec::new();
+  let Some(_guard) = super::AliasGuard::enter(ident) else {
+    return literals;
+  };
   for r in cddl.rules.iter() {
     if let Rule::Type { rule, .. } = r {
       if rule.name == *ident {
@@ -46,6 +49,9 @@ pub fn string_literals_from_ident<'a>(
 /// proposed .cat control operator.
 pub fn numeric_values_from_ident<'a>(cddl: &'a CDDL<'a>, ident: &Identifier) -> Vec<&'a Type2<'a>> {
   let mut literals = Vec::new();
+  let Some(_guard) = super::AliasGuard::enter(ident) else {
+    return literals;
+  };
   for r in cddl.rules.iter() {
     if let Rule::Type { rule, .. } = r {
       if rule.name == *ident {
